@@ -261,6 +261,191 @@ def _rng_origin(ctx, f, recv, depth=0):
     return (False, norm_text(recv))
 
 
+# -------------------------------------------------------------------- RNG-SEED
+GLOBAL_STREAMS = ('numpy.random.mtrand._rand', 'numpy.random._rand', 'numpy.random')
+LIB_NORMALISERS = ('scipy._lib._util.check_random_state', 'sklearn.utils.check_random_state',
+                   'sklearn.utils.validation.check_random_state')
+
+
+def _truth_tests(fnode, names):
+    """(node, name) for every place where a bare name from `names` is used as a truth value:
+    `if x`, `if not x`, `x or y`, `x and y`, `a if x else b`, `while x`, `bool(x)`."""
+    out = []
+
+    def bare(e):
+        return isinstance(e, ast.Name) and e.id in names
+
+    def scan_test(t):
+        if bare(t):
+            out.append((t, t.id))
+        elif isinstance(t, ast.UnaryOp) and isinstance(t.op, ast.Not):
+            scan_test(t.operand)
+        elif isinstance(t, ast.BoolOp):
+            for v in t.values:
+                scan_test(v)
+    for n in ast.walk(fnode):
+        if isinstance(n, (ast.If, ast.While, ast.IfExp)):
+            scan_test(n.test)
+        elif isinstance(n, ast.Assert):
+            scan_test(n.test)
+        elif isinstance(n, ast.BoolOp):
+            for v in n.values[:-1]:     # `x or default`: x is tested; the last operand is not
+                if bare(v):
+                    out.append((v, v.id))
+        elif isinstance(n, ast.UnaryOp) and isinstance(n.op, ast.Not) and bare(n.operand):
+            out.append((n.operand, n.operand.id))
+        elif isinstance(n, ast.Call) and isinstance(n.func, ast.Name) and n.func.id == 'bool' \
+                and len(n.args) == 1 and bare(n.args[0]):
+            out.append((n.args[0], n.args[0].id))
+    seen, uniq = set(), []
+    for node, nm in out:
+        if id(node) not in seen:
+            seen.add(id(node))
+            uniq.append((node, nm))
+    return uniq
+
+
+def _is_none_test(t, p, resolve):
+    """`p is None`, possibly or-ed with `p is np.random` (the library helper's own spelling)."""
+    if isinstance(t, ast.BoolOp) and isinstance(t.op, ast.Or):
+        return all(_is_none_test(v, p, resolve) for v in t.values) and \
+            any(_is_none_only(v, p) for v in t.values)
+    if _is_none_only(t, p):
+        return True
+    if isinstance(t, ast.Compare) and len(t.ops) == 1 and isinstance(t.ops[0], ast.Is) and \
+            isinstance(t.left, ast.Name) and t.left.id == p and \
+            resolve(t.comparators[0]) in GLOBAL_STREAMS:
+        return True
+    return False
+
+
+def _is_none_only(t, p):
+    return isinstance(t, ast.Compare) and len(t.ops) == 1 and isinstance(t.ops[0], ast.Is) and \
+        isinstance(t.left, ast.Name) and t.left.id == p and \
+        isinstance(t.comparators[0], ast.Constant) and t.comparators[0].value is None
+
+
+def _seed_findings(f, seed_params, is_normaliser):
+    """findings of RNG-SEED in one function: [(node, key, why)]"""
+    out = []
+    loc = f.local_names()
+    resolve = lambda e: f.module.resolve(e, loc) if isinstance(e, (ast.Name, ast.Attribute)) \
+        else None
+    for node, nm in _truth_tests(f.node, set(seed_params)):
+        out.append((node, 'truth-' + nm,
+                    '`%s` carries a seed / generator and is tested by its truth value: the integer '
+                    'seed 0 (and numpy.int64(0)) is falsy and is treated like None, so it selects '
+                    'the global random stream and two calls with seed 0 differ' % nm))
+    if is_normaliser:
+        pm = {}
+        for par_ in ast.walk(f.node):
+            for ch_ in ast.iter_child_nodes(par_):
+                pm[ch_] = par_
+        p = seed_params[0]
+        for r in ast.walk(f.node):
+            if not (isinstance(r, ast.Return) and r.value is not None and
+                    resolve(r.value) in GLOBAL_STREAMS + ('numpy.random.mtrand._rand',)):
+                continue
+            # the guards this return runs under
+            guards, cur = [], r
+            while cur in pm:
+                par = pm[cur]
+                if isinstance(par, ast.If):
+                    guards.append((par, cur in par.body))
+                cur = par
+            ok = any(pos and _is_none_test(g.test, p, resolve) for g, pos in guards)
+            if not ok:
+                out.append((r, 'global-stream',
+                            'the global random stream is returned on a path that is not guarded '
+                            'by `%s is None`: a supplied seed does not determine the draws' % p))
+    return out
+
+
+def rng_seed(ctx):
+    ctx.rule('RNG-SEED', 'a seed / generator parameter is never tested by its truth value (0 is a '
+             'valid seed) and the seed normaliser is the library helper, or a repository function '
+             'that hands out the global stream only under `seed is None`')
+    from ..model import FunctionInfo
+    repo = ctx.repo
+    n = 0
+    normalisers = {}
+    # which callable normalises seeds at each use
+    for f in repo.all_functions():
+        loc = f.local_names()
+        for node in ast.walk(f.node):
+            if isinstance(node, ast.Call):
+                q = f.module.resolve(node.func, loc) or ''
+                if q.endswith('check_random_state'):
+                    n += 1
+                    if q in LIB_NORMALISERS:
+                        ctx.ob('RNG-SEED', True, None, '%s: seed normalised by %s' % (f.qualname, q),
+                               f=f, node=node, key='norm-' + f.qualname)
+                        continue
+                    tgt = repo.lookup(q) if q.startswith('pyins') else None
+                    ctx.need(isinstance(tgt, FunctionInfo), 'seed normaliser %s is neither the '
+                             'library helper nor a repository function' % q)
+                    normalisers[tgt.fq] = tgt
+    ctx.floor('RNG-SEED', n, 6, 'seed normalisation sites')
+    for f in repo.all_functions():
+        seeds = _gen_params(f)
+        is_norm = f.fq in normalisers
+        if is_norm:
+            ps = [p_ for p_ in f.params if p_ not in ('self', 'cls')]
+            ctx.need(len(ps) == 1, 'repository seed normaliser %s: one parameter expected' % f.fq)
+            seeds = ps
+            ctx.touch(f)
+        # a parameter handed to RandomState(...) directly is a seed as well
+        loc = f.local_names()
+        for node in ast.walk(f.node):
+            if isinstance(node, ast.Call) and (f.module.resolve(node.func, loc) or '') in (
+                    'numpy.random.RandomState', 'numpy.random.default_rng',
+                    'numpy.random.mtrand.RandomState') and node.args and \
+                    isinstance(node.args[0], ast.Name) and node.args[0].id in f.params and \
+                    node.args[0].id not in seeds:
+                seeds = seeds + [node.args[0].id]
+        if not seeds:
+            continue
+        fs = _seed_findings(f, seeds, is_norm)
+        if not fs:
+            ctx.ob('RNG-SEED', True, None, '%s: seed parameter(s) %s never tested by truth value%s'
+                   % (f.qualname, ', '.join(seeds),
+                      '; global stream only under `is None`' if is_norm else ''), f=f,
+                   key='seed-' + f.qualname)
+        for node, key, why in fs:
+            ctx.ob('RNG-SEED', False, None, '%s: %s' % (f.qualname, key), f=f, node=node,
+                   key=key + '-' + f.qualname, why=why)
+    # positive fixture (the expected count of findings is zero)
+    if not ctx.cache.get('rng-seed-fixture'):
+        ctx.cache['rng-seed-fixture'] = True
+        src = ('import numpy as np\n'
+               'def bad(seed):\n    if not seed:\n        return np.random.mtrand._rand\n'
+               '    return np.random.RandomState(seed)\n'
+               'def good(seed):\n    if seed is None or seed is np.random:\n'
+               '        return np.random.mtrand._rand\n    return np.random.RandomState(seed)\n'
+               'def leak(seed):\n    if isinstance(seed, int):\n        return np.random.RandomState(seed)\n'
+               '    return np.random.mtrand._rand\n')
+        tree = ast.parse(src)
+
+        class _M:
+            @staticmethod
+            def resolve(e, loc):
+                t = norm_text(e)
+                return t.replace('np.', 'numpy.', 1) if t.startswith('np.') else None
+
+        class _F:
+            def __init__(self, node):
+                self.node, self.module, self.params = node, _M, [a.arg for a in node.args.args]
+
+            def local_names(self):
+                return set(self.params)
+        got = {fn.name: sorted(k for _, k, _ in _seed_findings(_F(fn), ['seed'], True))
+               for fn in tree.body if isinstance(fn, ast.FunctionDef)}
+        if got != {'bad': ['global-stream', 'truth-seed'], 'good': [], 'leak': ['global-stream']}:
+            raise AnalysisError('RNG-SEED fixture not recognised: %s' % got)
+        ctx.ob('RNG-SEED', True, None, 'positive fixture: truth-value test and unguarded global '
+               'stream detected; the library helper\'s own shape is silent', key='fixture')
+
+
 # --------------------------------------------------------------------- RNG-FWD
 def _gen_params(f):
     """parameters of a callable that seed its randomness: passed to check_random_state"""
